@@ -152,8 +152,9 @@ def check_cases(cases: list[dict], rep: Report, known: dict) -> None:
     idx = []
     for c, info, label, out, ptxt in sem:
         otxt = wire.expr(out)
+        optxt = out_point(label, out, ptxt)
         idx.append((sb.ask(f"Q eval {c['e']} {ptxt}"), sb.ask(f"F0 eval {c['e']} {ptxt}"),
-                    sb.ask(f"Q eval {otxt} {ptxt}"), sb.ask(f"F0 eval {otxt} {ptxt}")))
+                    sb.ask(f"Q eval {otxt} {optxt}"), sb.ask(f"F0 eval {otxt} {optxt}")))
     sb.run()
     for (c, info, label, out, ptxt), (iq, jf, oq, of) in zip(sem, idx):
         rep.evaluations += 1
@@ -188,7 +189,7 @@ def check_cases(cases: list[dict], rep: Report, known: dict) -> None:
             continue
         # ambiguity by rounding?
         vb = Batch()
-        ii = [(vb.ask(f"F{j} eval {c['e']} {ptxt}"), vb.ask(f"F{j} eval {wire.expr(out)} {ptxt}")) for j in (1, 2, 3)]
+        ii = [(vb.ask(f"F{j} eval {c['e']} {ptxt}"), vb.ask(f"F{j} eval {wire.expr(out)} {out_point(label, out, ptxt)}")) for j in (1, 2, 3)]
         vb.run()
         vin = [_num_answer(vb[a]) for a, _ in ii]
         vout = [_num_answer(vb[b]) for _, b in ii]
@@ -204,6 +205,15 @@ def check_cases(cases: list[dict], rep: Report, known: dict) -> None:
             continue
         what = "is undefined" if a_out[0] != "ok" else "has a different value"
         rep.violation(f"simplified form ({label}) {what} at a point where the input is defined: input {sb[jf]}, output {sb[of]}", case)
+
+
+def out_point(label: str, out, ptxt: str) -> str:
+    """a partially reduced carrier (step budget exhausted) still mentions the auxiliary variable, e.g.
+    as 0.0 * t_fresh; its value does not depend on it, so the point gets a coordinate for it"""
+    if label == "carrier" and "t_fresh" in out._variable_names:
+        k, _, rest = ptxt.partition(" ")
+        return f"{int(k) + 1} {rest} t_fresh 1".replace("  ", " ")
+    return ptxt
 
 
 def k1_explains(c: dict, label: str, ptxt: str) -> bool:
